@@ -33,19 +33,22 @@ RULE = ("Hypothesis draws one of three case kinds. pwl: a call of "
         "a pair that differs and an output that is not saturated at the same "
         "value; distinct by SHA-1 of the case.")
 NT_FLOOR = 0.5
-BUDGET = {"quick": 600, "thorough": 10000}
+BUDGET = {"quick": 600, "thorough": 6000}
 ASSUMPTIONS = [
     "the end-keypoint clauses (clamp_max, cyclic) are judged 4*K float32 "
     "spacings of max(|input_min|,|input_max|) outside keypoint_input_max: the "
     "derived keypoints are float32 running sums, so the position of the last "
     "kink is only defined to that resolution; exactly at keypoint_input_max "
     "only finiteness and the bounds are judged (switch STRICT_END)",
-    "keypoint_output_parameters without a units axis (2-D or (.,1,p)) are "
-    "generated only for units == 1: for units > 1 the library deliberately "
-    "raises ValueError (its own test_suite_raises expects it) although the "
-    "docstring lists those forms (switch GEN_OUT_BROADCAST_UNITS)",
+    "2-D keypoint_output_parameters ((1,p), (B,p)) are generated only for "
+    "units == 1: for units > 1 the library deliberately raises ValueError "
+    "('should be 3 dimensional when units > 1', expected by its own "
+    "test_suite_raises) although the docstring lists those forms without "
+    "that condition (switch GEN_OUT_2D_UNITS); the 3-D forms (1,1,p), "
+    "(B,1,p), (1,units,p), (B,units,p) are generated for every units",
     "keypoint_input_min < keypoint_input_max strictly; all parameters, "
-    "scalings and inputs are finite float32 with magnitude <= ~1e7; the "
+    "scalings and inputs are finite float32 with magnitude <= ~1e7, inputs "
+    "are never subnormal (TensorFlow kernels flush them to zero); the "
     "argument of the exp scaling transform stays within +-60 so that the "
     "derived scale is finite",
     "CDF monotonicity is claimed for non-negative input scaling only: learned "
@@ -57,12 +60,23 @@ ASSUMPTIONS = [
 
 # Lead-decidable switches (see ASSUMPTIONS).
 STRICT_END = False
-GEN_OUT_BROADCAST_UNITS = False
+GEN_OUT_2D_UNITS = False
 
 GEOM_EPS = {"cdf_fn": 1e-8, "cdf_layer": 1e-3}
 PARAM_SCALES = [1e-3, 1.0, 1.0, 3.0, 10.0, 30.0, 100.0, 1e3, 1e6]
 FORMS = ["1p", "Bp", "11p", "B1p", "1up", "Bup"]
 SCAL_FORMS = ["none", "D11", "Dn1", "D1u", "Dnu"]
+
+
+def _flush(x):
+  """float32 array without subnormal values (TensorFlow kernels may flush them
+  to zero, e.g. in the comparison with missing_input_value)."""
+  x = np.asarray(x, np.float32)
+  return np.where(np.abs(x) < np.finfo(np.float32).tiny, np.float32(0), x)
+
+
+def _first(mask):
+  return tuple(int(v) for v in np.argwhere(mask)[0])
 
 
 def _lead(form, b, u):
@@ -104,10 +118,10 @@ def _pwl_case(draw, tier):
   out_max = S.f32(out_min + draw(st.sampled_from(
       [0.0, 0.25, 0.5, 1.0, 1.0, 1.0, 2.0, 3.0, 10.0, 1000.0])))
   kip_form = draw(st.sampled_from(FORMS)) if p_in > 0 else None
-  if units == 1 or GEN_OUT_BROADCAST_UNITS:
+  if units == 1 or GEN_OUT_2D_UNITS:
     kop_form = draw(st.sampled_from(FORMS))
   else:
-    kop_form = draw(st.sampled_from(["1up", "Bup"]))
+    kop_form = draw(st.sampled_from(["11p", "B1p", "1up", "Bup"]))
   case = {
       "kind": "pwl", "units": units, "batch": b, "k": k, "mono": mono,
       "clamp_min": bool(clamp_min), "clamp_max": bool(clamp_max),
@@ -256,14 +270,14 @@ def _pwl_inputs(case, rs, kp_ref, miv):
     x1 = np.choose(pick, parts)
   else:
     x1 = draw(case["x_mode"])
-  x1 = x1.astype(np.float32)
+  x1 = _flush(x1)
   ulp = np.spacing(np.abs(x1)).astype(np.float64)
   steps = np.stack([np.zeros(shape), ulp, np.full(shape, 1e-3 * width),
                     np.full(shape, 0.3 * width), np.full(shape, width),
                     np.full(shape, 10 * width), np.full(shape, 1e6)])
   x2 = (x1.astype(np.float64) + np.choose(rs.randint(0, 7, size=shape),
                                           steps)).astype(np.float32)
-  x2 = np.maximum(x2, x1)
+  x2 = np.maximum(_flush(x2), x1)
   if miv is not None:
     x1 = np.where(rs.rand(*shape) < 0.3, np.float32(miv), x1)
     x2 = np.where(rs.rand(*shape) < 0.15, np.float32(miv), x2)
@@ -382,14 +396,14 @@ def _run_pwl(case, out, tf, tfl):
       collapsed = bad & at.any(-1)
       other = bad & ~collapsed
       if np.any(collapsed):
-        i = tuple(np.argwhere(collapsed)[0])
+        i = _first(collapsed)
         out.label("pwl:nan-collapsed-keypoint")
         out.violate("NaN output at input %r = derived keypoint whose derived "
                     "gap is exactly 0.0 (gaps %s)" % (
                         float(xf[i]), dx[i].tolist()),
                     kind="nan-collapsed-keypoint", **sig)
       if np.any(other):
-        i = tuple(np.argwhere(other)[0])
+        i = _first(other)
         out.violate("non-finite output %r at input %r (probe %s)" % (
             float(y[i]), float(xf[i]), name), kind="nan", **sig)
         return
@@ -397,8 +411,8 @@ def _run_pwl(case, out, tf, tfl):
       miss[name] = m | bad       # not judged further
     # bounds
     if np.any(live & ((y < out_min - tol) | (y > out_max + tol))):
-      i = tuple(np.argwhere(live & ((y < out_min - tol) |
-                                    (y > out_max + tol)))[0])
+      i = _first(live & ((y < out_min - tol) |
+                                    (y > out_max + tol)))
       out.violate("output %r outside [%r, %r] at input %r" % (
           float(y[i]), out_min, out_max, float(xf[i])), kind="bounds",
                   mono=case["mono"], **sig)
@@ -437,7 +451,7 @@ def _run_pwl(case, out, tf, tfl):
     out.checks += 1
     d = ys["b"] - ys["a"]
     if np.any(ok & (d < -TOL_MONO_F * osc)):
-      i = tuple(np.argwhere(ok & (d < -TOL_MONO_F * osc))[0])
+      i = _first(ok & (d < -TOL_MONO_F * osc))
       out.violate("f(%r)=%r > f(%r)=%r with monotonicity='increasing'" % (
           float(xs["a"][i]), float(ys["a"][i]), float(xs["b"][i]),
           float(ys["b"][i])), kind="monotonicity", **sig)
@@ -455,7 +469,7 @@ def _run_pwl(case, out, tf, tfl):
       ok = judged(n)
       out.checks += 1
       if np.any(ok & (np.abs(ys[n] - out_min) > tol)):
-        i = tuple(np.argwhere(ok & (np.abs(ys[n] - out_min) > tol))[0])
+        i = _first(ok & (np.abs(ys[n] - out_min) > tol))
         out.violate("clamp_min: f(%r)=%r != keypoint_output_min=%r" % (
             float(xs[n][i]), float(ys[n][i]), out_min), kind="clamp",
                     end="min", **sig)
@@ -465,7 +479,7 @@ def _run_pwl(case, out, tf, tfl):
       ok = judged(n)
       out.checks += 1
       if np.any(ok & (np.abs(ys[n] - out_max) > tol)):
-        i = tuple(np.argwhere(ok & (np.abs(ys[n] - out_max) > tol))[0])
+        i = _first(ok & (np.abs(ys[n] - out_max) > tol))
         out.violate("clamp_max: f(%r)=%r != keypoint_output_max=%r" % (
             float(xs[n][i]), float(ys[n][i]), out_max), kind="clamp",
                     end="max", exact_end=(n == "hi"), **sig)
@@ -476,7 +490,7 @@ def _run_pwl(case, out, tf, tfl):
       ok = judged(lo_n, hi_n)
       out.checks += 1
       if np.any(ok & (np.abs(ys[lo_n] - ys[hi_n]) > tol)):
-        i = tuple(np.argwhere(ok & (np.abs(ys[lo_n] - ys[hi_n]) > tol))[0])
+        i = _first(ok & (np.abs(ys[lo_n] - ys[hi_n]) > tol))
         out.violate("is_cyclic: f(%r)=%r != f(%r)=%r" % (
             float(xs[lo_n][i]), float(ys[lo_n][i]), float(xs[hi_n][i]),
             float(ys[hi_n][i])), kind="cyclic", exact_end=(hi_n == "hi"),
@@ -502,7 +516,7 @@ def _cdf_inputs(case, rs, loc):
     bb, dd = np.meshgrid(np.arange(b), np.arange(d), indexing="ij")
     x1 = locb[bb, dd, j, q] + rs.normal(size=(b, d)) * rs.choice(
         [0.0, 0.01, 1.0, 100.0], size=(b, d))
-  x1 = x1.astype(np.float32)
+  x1 = _flush(x1)
   mag = np.maximum(1.0, np.abs(x1.astype(np.float64)))
   step = rs.choice([0.0, 1e-3, 0.1, 1.0, 10.0, 1e3], size=(b, d)) * \
       rs.choice([1.0, 1.0, 0.0], size=(b, d)) * np.where(
@@ -511,7 +525,7 @@ def _cdf_inputs(case, rs, loc):
     keep = np.zeros((b, d))
     keep[np.arange(b), rs.randint(0, d, size=b)] = 1.0
     step = np.where(keep > 0, np.maximum(step, 1e-3), 0.0)
-  x2 = np.maximum((x1.astype(np.float64) + step).astype(np.float32), x1)
+  x2 = np.maximum(_flush(x1.astype(np.float64) + step), x1)
   return x1, x2
 
 
@@ -542,7 +556,7 @@ def _judge_cdf(case, out, y1, y2, x1, x2, which):
   out.checks += 1
   diff = y2 - y1
   if np.any(diff < -TOL_MONO_F):
-    i = tuple(np.argwhere(diff < -TOL_MONO_F)[0])
+    i = _first(diff < -TOL_MONO_F)
     out.violate("output %s decreases from %r to %r when the inputs of "
                 "example %d move from %s up to %s" % (
                     i, float(y1[i]), float(y2[i]), i[0], x1[i[0]].tolist(),
@@ -624,7 +638,9 @@ def _run_cdf_layer(case, out, tf, tfl):
       if kw[name] == default and type(kw[name]) is type(default):
         del kw[name]
   layer = tfl.layers.CDF(**kw)
-  layer.build((None, d))
+  # Built by a first call: CDF.build() does not mark the layer as built, so a
+  # direct layer.build() would be repeated (fresh weights) on the first call.
+  layer(tf.zeros((1, d), tf.float32))
   if case["kernel_src"] == "assigned":
     layer.kernel.assign(S.materialize(case["kernel"], (d * n, up)).reshape(
         1, d, n, up))
